@@ -264,3 +264,26 @@ def disturb(rnd, obj, xa, p=0.5):
             except Exception:  # noqa
                 pass
     return "+".join(done) or "none"
+
+
+def inplace_consistency(rnd, obj, xa, desc):
+    """The same ndarray object evaluated, moved in place, evaluated again (what the integrators do with their
+    position buffer) must give what a fresh array with the same values gives.  Returns a list of (key, text)."""
+    import numpy
+    from .common import same_float
+    out = []
+    with numpy.errstate(all="ignore"):
+        try:
+            buf = xa.copy()
+            obj.misfit(buf)
+            obj.gradient(buf)
+            buf += numpy.array([[rnd.choice([-0.25, 0.125, 0.375])] for _ in range(xa.shape[0])])
+            m_in, g_in = obj.misfit(buf), numpy.asarray(obj.gradient(buf), dtype=float).flatten()
+            m_fr, g_fr = obj.misfit(buf.copy()), numpy.asarray(obj.gradient(buf.copy()), dtype=float).flatten()
+        except Exception:  # noqa
+            return out
+    same_g = len(g_in) == len(g_fr) and all(same_float(a, b) for a, b in zip(g_in, g_fr))
+    if not (same_float(float(m_in), float(m_fr)) and same_g):
+        out.append(("not-a-function-of-the-point", f"{desc}: after moving the evaluated array in place to {[float(v) for v in buf.flatten()]} misfit / gradient are "
+                    f"{float(m_in)} / {list(g_in)}, a fresh array with the same values gives {float(m_fr)} / {list(g_fr)}"))
+    return out
